@@ -32,3 +32,8 @@ EXTRA_RUNS["C06"] = [dict(component="jsiso", require="Corr.JsCorr", require_vo="
 # C13: "hosts load YAML or JSON and compile" (cmd/mcrew/service.go is among its anchors): the mcrew operation sequences,
 # whose machines get their specifications through Service.GetSpec from files (one of them 1.3 MB long), also run for C13
 EXTRA_RUNS["C13"] = [dict([r for r in _MC["C16"]["runs"] if r["component"] == "mcrewseq"][0], n=dict(quick=80, thorough=800))]
+
+# C15: "a crew restarted from the persisted state behaves like the original" includes its timers: the sio timer scenarios
+# (requests from the main goroutine and from handlers, restarts from the persisted crew state in between) also run for C15
+from checklib.props_timers import timers_run as _timers_run
+EXTRA_RUNS["C15"] = [_timers_run("sio", (80, 1500))]
